@@ -103,7 +103,7 @@ class Check:
             self.trusted_base.append(text)
 
     # ---- finishing -----------------------------------------------------
-    def finish(self) -> int:
+    def finish(self, write: bool = True) -> int:
         known = [k for k in load_known_findings() if k.get("property") == self.pid]
         open_known = {
             (k["rule"], k["key"]): k for k in known if k.get("status", "open") == "open"
@@ -119,6 +119,14 @@ class Check:
                 violations.append(o)
 
         vdir = os.path.join(EVIDENCE_DIR, "violations")
+        if not write:
+            for o, k in known_hits:
+                print(f"KNOWN-FINDING: property={self.pid} {o.rule} {o.key}: {k.get('what', o.msg)}")
+            for o in violations:
+                print(f"  {o.rule} {o.key} @ {o.loc}: {o.msg}")
+                print(f"VIOLATION property={self.pid} replay=-")
+            print(f"{self.pid}: {len(self.obligations)} obligations, {len(violations)} violations (scratch run, no evidence written)")
+            return 1 if violations else 0
         # clear stale violation files of this property
         if os.path.isdir(vdir):
             for f in os.listdir(vdir):
